@@ -2,6 +2,7 @@ package sym
 
 import (
 	"fmt"
+	"unsafe"
 	"go/types"
 	"math/bits"
 	"strings"
@@ -112,7 +113,7 @@ func (e *Engine) uf(name string, outLen int, inj bool, args [][]*Term) []*Term {
 	if inj {
 		// LEN_name(y) identifies the length signature; INV_sym_i(y) recovers each argument
 		sigID := e.sigID(name, sym)
-		e.addPC(e.ts.Eq(e.ts.App("LEN!"+name, 16, y), e.ts.Const(16, uint64(sigID))))
+		e.addPC(e.ts.Eq(e.ts.App(fmt.Sprintf("LEN!%s!%d", name, outLen), 16, y), e.ts.Const(16, uint64(sigID))))
 		for i, a := range bv {
 			e.addPC(e.ts.Eq(e.ts.App(fmt.Sprintf("INV!%s!%d", sym, i), a.W, y), a))
 		}
@@ -185,9 +186,14 @@ func init() {
 	})
 	reg("Choice", func(e *Engine, fn *ssa.Function, a []Value) Value {
 		x := e.input(concStr(e, a[0]), -1, 64)
-		n := a[1].(*Term)
-		e.assume(e.ts.Cmp(OpUlt, x, n))
-		return e.ts.Const(64, e.concretize(x))
+		n := e.concInt(a[1])
+		if x.Op == OpConst {
+			if int(x.Val) >= n {
+				e.end("prune", "choice out of range")
+			}
+			return x
+		}
+		return e.ts.Const(64, e.chooseAmong(x, n))
 	})
 	reg("Concrete", func(e *Engine, fn *ssa.Function, a []Value) Value {
 		t := a[0].(*Term)
@@ -360,6 +366,47 @@ func init() {
 		e.sumCache = map[*ssa.Function]Value{}
 		return nil
 	})
+	reg("AssumeEq", func(e *Engine, fn *ssa.Function, a []Value) Value {
+		x, y := a[0].(Slice), a[1].(Slice)
+		if len(x.D) != len(y.D) {
+			e.end("prune", "AssumeEq: different lengths")
+		}
+		c := e.ts.True
+		for i := range x.D {
+			c = e.ts.BAnd(c, e.ts.Eq(x.D[i].(*Term), y.D[i].(*Term)))
+		}
+		// axioms about uninterpreted functions: no feasibility query needed
+		e.addPC(c)
+		return nil
+	})
+	reg("EqBytes", func(e *Engine, fn *ssa.Function, a []Value) Value {
+		x, y := a[0].(Slice), a[1].(Slice)
+		if len(x.D) != len(y.D) {
+			return e.ts.False
+		}
+		c := e.ts.True
+		for i := range x.D {
+			c = e.ts.BAnd(c, e.ts.Eq(x.D[i].(*Term), y.D[i].(*Term)))
+		}
+		return c
+	})
+	reg("SameBytes", func(e *Engine, fn *ssa.Function, a []Value) Value {
+		// syntactic identity of the byte terms (a concrete answer; sufficient for equality)
+		x, y := a[0].(Slice), a[1].(Slice)
+		if len(x.D) != len(y.D) {
+			return e.ts.False
+		}
+		for i := range x.D {
+			if x.D[i].(*Term) != y.D[i].(*Term) {
+				return e.ts.False
+			}
+		}
+		return e.ts.True
+	})
+	reg("And", func(e *Engine, fn *ssa.Function, a []Value) Value { return e.ts.BAnd(a[0].(*Term), a[1].(*Term)) })
+	reg("Or", func(e *Engine, fn *ssa.Function, a []Value) Value { return e.ts.BOr(a[0].(*Term), a[1].(*Term)) })
+	reg("Not", func(e *Engine, fn *ssa.Function, a []Value) Value { return e.ts.BNot(a[0].(*Term)) })
+	reg("Implies", func(e *Engine, fn *ssa.Function, a []Value) Value { return e.ts.Implies(a[0].(*Term), a[1].(*Term)) })
 	reg("OpaqueString", func(e *Engine, fn *ssa.Function, a []Value) Value {
 		return Str{S: "<opaque>", Conc: true}
 	})
@@ -392,6 +439,21 @@ func init() {
 		}
 		copy(dst.D, tmp)
 		return e.intc(n)
+	}
+	// Exact rewrites of crypto/subtle's constant-time idioms into ite form (same value on
+	// every input; checked by translator validation). They only make terms smaller.
+	intrinsics["crypto/subtle.ConstantTimeSelect"] = func(e *Engine, fn *ssa.Function, a []Value) Value {
+		v, x, y := a[0].(*Term), a[1].(*Term), a[2].(*Term)
+		if e.ts.knownZero(v, 0)|1 == mask(v.W) {
+			return e.ts.Ite(e.ts.Eq(e.ts.Extract(v, 0, 0), e.ts.Const(1, 1)), x, y)
+		}
+		return e.callSSA(fn, a, nil)
+	}
+	intrinsics["crypto/subtle.ConstantTimeByteEq"] = func(e *Engine, fn *ssa.Function, a []Value) Value {
+		return e.ts.ZExt(e.ts.Ite(e.ts.Eq(a[0].(*Term), a[1].(*Term)), e.ts.Const(1, 1), e.ts.Const(1, 0)), 64)
+	}
+	intrinsics["crypto/subtle.ConstantTimeEq"] = func(e *Engine, fn *ssa.Function, a []Value) Value {
+		return e.ts.ZExt(e.ts.Ite(e.ts.Eq(a[0].(*Term), a[1].(*Term)), e.ts.Const(1, 1), e.ts.Const(1, 0)), 64)
 	}
 	intrinsics["math/bits.Mul64"] = func(e *Engine, fn *ssa.Function, a []Value) Value {
 		x, y := a[0].(*Term), a[1].(*Term)
@@ -437,10 +499,12 @@ func init() {
 
 func sliceStart(s Slice) int {
 	// offset of s.D[0] within its backing array o.Arr (by capacity arithmetic)
-	if s.O == nil || s.O.Arr == nil {
+	if s.O == nil || s.O.Arr == nil || cap(s.D) == 0 || cap(s.O.Arr) == 0 {
 		return 0
 	}
-	return cap(s.O.Arr) - cap(s.D)
+	a0 := uintptr(unsafe.Pointer(unsafe.SliceData(s.O.Arr)))
+	d0 := uintptr(unsafe.Pointer(unsafe.SliceData(s.D)))
+	return int((d0 - a0) / unsafe.Sizeof(s.D[:1][0]))
 }
 
 func (e *Engine) ufCall(a []Value, inj bool) Value {
